@@ -188,8 +188,18 @@ func (g *gen) exhaustive() {
 	}
 }
 
+// seedMix scatters VERIF_SEED before it reaches hx.NewRng: NewRng's state is seed*G+c and every draw adds G, so
+// consecutive seeds would otherwise yield the same stream shifted by one draw (measured: seeds 1 and 2 gave
+// op files differing in 4 of 17784 lines). All random choices still derive from hx.NewRng.
+func seedMix(s uint64) uint64 {
+	z := s + 0x9E3779B97F4A7C15
+	z = (z ^ (z >> 30)) * 0xBF58476D1CE4E5B9
+	z = (z ^ (z >> 27)) * 0x94D049BB133111EB
+	return z ^ (z >> 31)
+}
+
 func generate(a hx.Args) {
-	g := &gen{r: hx.NewRng(a.Seed)}
+	g := &gen{r: hx.NewRng(seedMix(a.Seed))}
 	// fixed boundary shapes
 	for _, s := range []string{
 		"fx 0", "fx 0 F", "fx 1 F F F", "fx 0 F T _a 0", "fx 0 F T _a 5 P 0 0 0",
